@@ -689,10 +689,11 @@ fn mem_exp<T: FloatT>(exp: &Value) -> Value {
     let unit = exp.get("unit").and_then(|u| u.as_i64()).unwrap_or(1);
     let marks: Vec<u64> = exp["marks"].as_array().unwrap().iter().map(|x| x.as_u64().unwrap()).collect();
     let period: Vec<i64> = exp["period"].as_array().unwrap().iter().map(|x| x.as_i64().unwrap()).collect();
-    let before = LIVE.load(Ordering::Relaxed);
-    let mut out = Vec::new();
-    let built = try_build::<T>(&exp["cfg"]);
+    // everything the harness itself allocates during the measurement is allocated up front
+    let mut raw: Vec<(u64, isize)> = Vec::with_capacity(marks.len() + 1);
     let mut o = exp.clone();
+    let before = LIVE.load(Ordering::Relaxed);
+    let built = try_build::<T>(&exp["cfg"]);
     match built {
         Err(e) => {
             o["res"] = json!(e);
@@ -709,12 +710,13 @@ fn mem_exp<T: FloatT>(exp: &Value) -> Value {
                     break;
                 }
                 if step == marks[mi] {
-                    out.push(json!([step, LIVE.load(Ordering::Relaxed) - before]));
+                    raw.push((step, LIVE.load(Ordering::Relaxed) - before));
                     mi += 1;
                 }
             }
-            o["res"] = json!({"new": after_new, "marks": out, "panic": dead});
             drop(v);
+            let out: Vec<Value> = raw.iter().map(|(s, b)| json!([s, b])).collect();
+            o["res"] = json!({"new": after_new, "marks": out, "panic": dead});
         }
     }
     o
